@@ -199,7 +199,70 @@ Theorem C09_out_of_project_edit_refuted :
 Proof. exact out_of_project_edit_refuted. Qed.
 Print Assumptions C09_out_of_project_edit_refuted.
 
+(* ---- symbolic links (rope: a link is an ignored resource) ---- *)
+(* Confinement in the presence of links: in_root AND no edited resource on or below a link ([ignored_link] is the
+   link part of Project.is_ignored).  The change then runs exactly as without links. *)
+Theorem C09_confined_links :
+  forall (v : variant) (f : nat) (js : bool) (k : sched) (d : dir) (root : list N) (ls : list (list N * list N))
+         (c : change) (m : fs) (key : list N),
+    in_root root = true -> all_in_root c = true -> no_link_edits root ls c = true -> is_prefix root key = false ->
+    res_fs (run v f js k d (realize_l root ls c) m) !! key = m !! key.
+Proof. exact run_confined_links. Qed.
+Print Assumptions C09_confined_links.
+
+(* ... and the hypothesis cannot be dropped: ChangeContents(lnk.py), all_in_root, rewrites the out-of-project file
+   behind the link.  Reachable on rope: InlineMethod / MethodObject on a function defined in an ignored (linked)
+   module (open findings C09-inline-ignored-defining-module, C09-method-object-ignored-defining-module). *)
+Theorem C09_link_escape_refuted :
+  exists root ls c m m' k' c' key,
+    in_root root = true /\ wf_fs m /\ all_in_root c = true /\ no_link_edits root ls c = false /\
+    run repaired 4 true quiet Do (realize_l root ls c) m = Ok m' k' c' /\
+    is_prefix root key = false /\ m' !! key <> m !! key.
+Proof. exact link_escape_refuted. Qed.
+Print Assumptions C09_link_escape_refuted.
+
+(* ---- previews ---- *)
+(* A move whose destination is free lands, with everything below it, exactly at the announced destination
+   ("rename to" of MoveResource.get_description, the second resource of get_changed_resources). *)
+Theorem C09_move_lands_at_destination :
+  forall (p q : list N) (m m' : fs),
+    wf_fs m -> simple_move p q m = true -> p_move p q m = POk m' ->
+    forall r, m' !! (q ++ r) = m !! (p ++ r) /\ m' !! (p ++ r) = None.
+Proof. exact move_lands. Qed.
+Print Assumptions C09_move_lands_at_destination.
+
+(* Partial: the unified-diff TEXT of ChangeContents.get_description (difflib) is not modelled; it is checked on every
+   run by applying it with an independent patch routine.  What is proved: the preview is computed against exactly
+   the contents do replaces ([desc_old] = the old_contents do captures = the file's contents), and what do writes is
+   the announced new contents. *)
+Theorem C09_description_matches_partial :
+  forall (k : sched) (p new : list N) (old : option (list N)) (m m' : fs) (k' : sched) (c' : change),
+    body k Do (CC p new old) m = Ok m' k' c' ->
+    m' !! p = Some (File new) /\
+    (old = None -> c' = CC p new (Some (desc_old (CC p new None) m)) /\
+                   m !! p = Some (File (desc_old (CC p new None) m))).
+Proof. exact description_matches. Qed.
+Print Assumptions C09_description_matches_partial.
+
 (* ---- non-vacuity ---- *)
+Example C09_confined_links_example :
+  in_root w_root = true /\ all_in_root w_ok = true /\ no_link_edits w_root w_links w_ok = true /\
+  realize_l w_root w_links w_ok = realize w_root w_ok.
+Proof. exact confined_links_example. Qed.
+Print Assumptions C09_confined_links_example.
+
+Example C09_move_lands_example :
+  wf_fs w_disk /\ simple_move [10%N; 11%N] [10%N; 12%N] w_disk = true /\
+  exists m', p_move [10%N; 11%N] [10%N; 12%N] w_disk = POk m'.
+Proof. exact move_lands_example. Qed.
+Print Assumptions C09_move_lands_example.
+
+Example C09_description_example :
+  exists m' k' c', body quiet Do (CC [10%N; 13%N] [5%N] None) w_disk = Ok m' k' c' /\
+                   desc_old (CC [10%N; 13%N] [5%N] None) w_disk = [2%N].
+Proof. exact description_example. Qed.
+Print Assumptions C09_description_example.
+
 Example C09_confined_example :
   in_root w_root = true /\ all_in_root w_ok = true /\
   exists m' k' c', run repaired 4 true quiet Do (realize w_root w_ok) w_disk = Ok m' k' c' /\
